@@ -14,6 +14,7 @@ package vsched
 
 import (
 	"fmt"
+	"reflect"
 	"sort"
 )
 
@@ -103,16 +104,18 @@ type Result struct {
 }
 
 type sched struct {
-	active   bool
-	threads  []*thread
-	cur      int
-	prefix   []int
-	res      Result
-	k        int // preemptible visits per (thread, site)
-	vars     map[string]*varState
-	raceSeen map[string]bool
-	done     chan struct{}
-	hb       bool
+	active     bool
+	threads    []*thread
+	cur        int
+	prefix     []int
+	res        Result
+	k          int // preemptible visits per (thread, site)
+	vars       map[string]*varState
+	raceSeen   map[string]bool
+	done       chan struct{}
+	hb         bool
+	chanClocks map[uintptr]*[]uint32
+	chanIndex  map[uintptr]int
 }
 
 var s sched
@@ -307,6 +310,34 @@ func Acquire(obj *[]uint32) {
 		return
 	}
 	s.threads[s.cur].vc.join(vclock(*obj))
+}
+
+// ChanSync is inserted by the instrumenter around non-blocking channel operations (comm clauses of
+// a select that has a default clause): a scheduling point, and - conservatively - an acquire and a
+// release on a clock kept per channel, so that data handed over through the channel (free lists,
+// try-locks) is ordered for the happens-before detector. Over-approximating these edges can only
+// hide a report, never raise one; the free-running race-detector pass has the precise semantics.
+func ChanSync(ch interface{}) {
+	if !s.active {
+		return
+	}
+	var key uintptr
+	if v := reflect.ValueOf(ch); v.Kind() == reflect.Chan {
+		key = v.Pointer()
+	}
+	if s.chanClocks == nil {
+		s.chanClocks = map[uintptr]*[]uint32{}
+		s.chanIndex = map[uintptr]int{}
+	}
+	c := s.chanClocks[key]
+	if c == nil {
+		c = new([]uint32)
+		s.chanClocks[key] = c
+		s.chanIndex[key] = len(s.chanIndex) // label by order of first use: stable across processes
+	}
+	s.yield(fmt.Sprintf("chan#%d", s.chanIndex[key]))
+	Acquire(c)
+	Release(c)
 }
 
 // Acc is inserted by the instrumenter before every statement that mentions a
